@@ -166,6 +166,11 @@ func (t Table) addRoute(d *RouteDef) error {
 	switch {
 	// add new host
 	case t[host] == nil:
+		// the host is matched as a glob pattern by every lookup: reject it here
+		// instead of panicking there
+		if _, err := glob.Compile(host); err != nil {
+			return fmt.Errorf("route: invalid host. %s", err)
+		}
 		g, err := glob.Compile(path)
 		if err != nil {
 			return err
